@@ -13,7 +13,7 @@ from . import verus as V
 from .extract import Maintenance
 
 VERIF = os.path.dirname(os.path.dirname(os.path.abspath(__file__)))
-UNITS = os.path.join(VERIF, 'units')
+UNITS = os.environ.get('VERIF_UNITS') or os.path.join(VERIF, 'units')   # VERIF_UNITS: scratch directory for a unit under development (vf.dev only)
 TRUSTED_PATTERNS = ('assume(', 'admit(', 'external_body', 'assume_specification', 'external_fn_specification', 'external_type_specification',
                     'external]', 'verifier::external', 'axiom')
 
